@@ -348,10 +348,10 @@ pub fn run(tier: Tier) -> i32 {
         if s == 0 {
             t.add("enumerated_paths_total", total);
         }
-        random_paths(&mut t, seed, s, tier.n(8000, 60_000));
+        random_paths(&mut t, seed, s, tier.n(8000, 300_000));
         t
     });
-    let e2e = ctx.par(16, |s| end_to_end(seed, s, tier.n(3000, 12_000)));
+    let e2e = ctx.par(16, |s| end_to_end(seed, s, tier.n(3000, 100_000)));
     tally.merge(e2e);
     if let Err(e) = &pre {
         tally.inconclusive.push(e.clone());
